@@ -692,6 +692,8 @@ Hnextread(int32 access_id, uint16 tag, uint16 ref, int origin)
      * need to close the file before moving on
      */
     if (access_rec->special) {
+        int closed = TRUE; /* special information released below? */
+
         switch (access_rec->special) {
             case SPECIAL_LINKED:
                 if (HLPcloseAID(access_rec) == FAIL)
@@ -719,8 +721,17 @@ Hnextread(int32 access_id, uint16 tag, uint16 ref, int origin)
                 break;
 
             default: /* do nothing for other cases currently */
+                closed = FALSE;
                 break;
         } /* end switch */
+
+        /* The special information has been let go: the record is a plain one
+           from here on.  If the search below finds nothing, the caller's
+           Hendaccess() must not run the special endaccess on it again. */
+        if (closed) {
+            access_rec->special      = 0;
+            access_rec->special_info = NULL;
+        }
     }
 
     if (origin == DF_START) { /* set up variables to start searching from beginning of file */
